@@ -315,6 +315,7 @@ func metaStateLine(idx *comet.RoaringMetadataIndex) string {
 func execMeta(c *metaCase) []string {
 	lines := []string{"begin meta"}
 	idx := comet.NewRoaringMetadataIndex()
+	emptyForms := 0
 	for _, cmd := range c.Cmds {
 		switch cmd.Op {
 		case "add":
@@ -397,6 +398,20 @@ func execMeta(c *metaCase) []string {
 					res, err = idx.NewSearch().WithFilterGroups(qb.Build()...).Execute()
 				} else {
 					res, err = qb.Execute(idx)
+				}
+			} else if len(fs) == 0 && len(gs) == 0 {
+				// "an empty filter list returns all live documents", however the emptiness is
+				// spelled: nothing set, empty non-nil slices, a query builder without a clause
+				emptyForms++
+				switch emptyForms % 4 {
+				case 0:
+					res, err = idx.NewSearch().Execute()
+				case 1:
+					res, err = idx.NewSearch().WithFilterGroups([]*comet.FilterGroup{}...).Execute()
+				case 2:
+					res, err = idx.NewSearch().WithFilters([]comet.Filter{}...).WithFilterGroups([]*comet.FilterGroup{}...).Execute()
+				default:
+					res, err = comet.NewMetadataFilterQuery().Execute(idx)
 				}
 			} else {
 				s := idx.NewSearch()
